@@ -26,7 +26,8 @@ Focal(f) ==
     [] f = "lookuphit"    -> <<Lookup("fl", "s", "x3", "hit")>> \o Reads("f") \o <<SetS("fs", "s", Lit("s1")), P("fs2", Var("s"))>>
     [] f = "multi"        -> <<LetS("fl", "x3", Lit("m3")), SetS("fs", "s", Var("x3")), LetS("fl2", "_", Lit("d"))>> \o Reads("f")
 
-VM == [NoVarsMap EXCEPT !["p"] = "vmP"]
+\* s is also an Execute variable: the template's own s := shadows it, and = assigns to the nearest declaration
+VM == [NoVarsMap EXCEPT !["p"] = "vmP", !["s"] = "vmS"]
 GL == [NoVarsMap EXCEPT !["g"] = "glG", !["p"] = "glP"]
 
 MkPath(par) ==
@@ -75,7 +76,10 @@ ResReads(pfx) == << P(pfx \o "p", Var("p")), P(pfx \o "g", Var("g")), P(pfx \o "
                     P(pfx \o "ik", IsSetE("k")), P(pfx \o "iv", IsSetE("v")), P(pfx \o "iq", IsSetE("q1")), P(pfx \o "ctx", Ctx) >>
 MkResidue(par) ==
   LET path == par[2]  f == par[3]
-      foc  == IF f = "fail" THEN <<T("f0"), SetS("fs", "r", Lit("z")), T("f1")>> ELSE <<T("f0")>> \o ResReads("f")
+      foc  == CASE f = "fail" -> <<T("f0"), SetS("fs", "r", Lit("z")), T("f1")>>
+                [] f = "panic" -> <<T("f0"), P("ff", Ex("err", "panic")), T("f1")>>          \* a panic Execute passes on to its caller
+                [] f = "rterror" -> <<T("f0"), P("ff", Ex("err", "rterror")), T("f1")>>
+                [] OTHER -> <<T("f0")>> \o ResReads("f")
       r    == Build(path, 1, foc)
       main == <<T("pre")>> \o ResReads("a") \o r.main \o ResReads("z") \o <<T("post")>>
       lib  == Tm("lib", "", <<>>, r.bl)
@@ -119,7 +123,7 @@ MkBuiltin(par) ==
 
 MkC(par) == IF par[1] = "capture2" THEN MkCapture2(par) ELSE IF par[1] = "builtin" THEN MkBuiltin(par) ELSE IF par[1] = "mapalias" THEN MkMapAlias(par) ELSE IF par[1] = "path" THEN MkPath(par) ELSE IF par[1] = "residue" THEN MkResidue(par) ELSE MkCapture(par)
 cParams == ({"path"} \X PathsUpTo(Kinds, Depth) \X Focals)
-           \cup ({"residue"} \X PathsUpTo(Kinds, 1) \X {"fail", "ok"})
+           \cup ({"residue"} \X PathsUpTo(Kinds, 1) \X {"fail", "ok", "panic", "rterror"})
            \cup ({"capture"} \X RKinds \X {"none", "k", "kv"} \X {":=", "="})
            \cup ({"builtin"} \X {"plain", "shadow", "global"} \X PathsUpTo(Kinds, 1))
            \cup ({"capture2"} \X (RKinds \ {"custom", "customidx", "chan"}) \X {"none", "k", "kv"})
